@@ -65,7 +65,8 @@ class Ctx:
     def noise_arr(self, kind, key, shape, mk, extra=()):
         k = (kind, key.term, tuple(shape), extra)
         if k not in self.noise:
-            self.noise[k] = mk(f"{kind}[{_kstr(key.term)}]")
+            sfx = "" if not extra else "#" + str(abs(hash(extra)) % 10**6)
+            self.noise[k] = mk(f"{kind}[{_kstr(key.term)}]{'x'.join(map(str, shape))}{sfx}")
         return self.noise[k]
 
 
@@ -981,7 +982,7 @@ def _concrete_call(self, eqn, args):
 
 def _noise_reals(self, kind, key, shape, extra=()):
     def mk(nm):
-        return V.sym_reals(self.ctx.tag + nm, tuple(shape))
+        return V.sym_reals(nm, tuple(shape))
     return self.ctx.noise_arr(kind, key, shape, mk, extra)
 
 
@@ -1031,7 +1032,7 @@ def _h_randint(self, eqn, key, lo, hi):
     extra = (str(list(lo.reshape(-1))), str(list(hi.reshape(-1))))
 
     def mk(nm):
-        return V.sym_ints(self.ctx.tag + nm, tuple(shape))
+        return V.sym_ints(nm, tuple(shape))
     r = self.ctx.noise_arr("randint", key[()], shape, mk, extra)
     lo_b, hi_b = np.broadcast_to(lo, shape), np.broadcast_to(hi, shape)
     for x, a, b in zip(r.reshape(-1), lo_b.reshape(-1), hi_b.reshape(-1)):
@@ -1048,7 +1049,7 @@ def _h_shuffle(self, eqn, key, x):
         raise Unsupported("shuffle of rank>1")
 
     def mk(nm):
-        return V.sym_ints(self.ctx.tag + nm, (n,))
+        return V.sym_ints(nm, (n,))
     perm = self.ctx.noise_arr("perm", key[()], (n,), mk)
     cs = [z3.And(p >= 0, p < n) for p in perm]
     if n > 1:
